@@ -116,4 +116,30 @@ theorem mcp_year_constants : Cgt.mcpYearMonth = 4 ∧ Cgt.mcpYearMonth2 = 4 ∧ 
 example : (run {} [.recv 1, .recv 2, .complete 2, .recv 3, .complete 1, .complete 3]).answered = [2, 1, 3] := by
   decide
 
+/-- `find_disposal`'s search, abstractly: the first element of the listed disposals that satisfies the
+    request's (date, ticker) test. If the test singles `x` out among the listed disposals (C12's
+    `allDisposals_antisymm`: an accepted run lists no two disposals with one date and security), the search
+    returns `x` itself — wherever it stands in the list and whatever precedes it. -/
+theorem find_listed {α : Type} (p : α → Bool) (x : α) : ∀ (ds : List α), x ∈ ds → p x = true →
+    (∀ z ∈ ds, p z = true → z = x) → ds.find? p = some x := by
+  intro ds
+  induction ds with
+  | nil => intro h; simp at h
+  | cons d ds ih =>
+    intro hm hp hu
+    by_cases hd : p d = true
+    · have : d = x := hu d (by simp) hd
+      subst this
+      simp [List.find?, hd]
+    · have hne : x ≠ d := by intro e; subst e; exact hd hp
+      have hm' : x ∈ ds := by
+        rcases List.mem_cons.mp hm with e | h
+        · exact absurd e hne
+        · exact h
+      have hd' : p d = false := by cases h : p d <;> simp_all
+      simp only [List.find?, hd']
+      exact ih hm' hp (fun z hz => hu z (List.mem_cons_of_mem _ hz))
+
+example : [3, 5, 8, 5].find? (fun n => n == 8) = some 8 := by decide
+
 end Cgt.C20
